@@ -210,6 +210,11 @@ fn dispatch(tier: Tier, seed: u64, run: u64) -> RunOutcome {
     out
 }
 
+pub fn runner(tier: Tier, seed: u64) -> Option<(u64, Box<dyn Fn(u64) -> RunOutcome + Sync>)> {
+    let (r512, r1024, _) = sizes(tier);
+    Some((r512 + r1024, Box::new(move |run| dispatch(tier, seed, run))))
+}
+
 pub fn rerun(tier: Tier, seed: u64, run: u64) -> Option<RunOutcome> {
     Some(dispatch(tier, seed, run))
 }
